@@ -70,6 +70,23 @@ def r0_fold_failures(ctx: Ctx, rid: str = "R0", size_rule: bool = False) -> None
                       f"{cname}.as_const evaluates `{txt[:60]}` without turning *every* exception into Impossible: an error in an untaken branch or dead code surfaces at compile time instead of being evaluated (or not) at run time",
                       f"src/jinja2/nodes.py:{c.lineno}", detail={"class": cname, "call": txt[:80]})
     ctx.floor("computing calls in as_const", n, 6)
+    # a fold is evaluated under the eval context of the place it is folded for: every nested
+    # as_const call hands the context on (without it the operand is folded under a fresh
+    # default context - the environment's nameless autoescape default, never volatile)
+    n_sub = 0
+    for cname, fn in sorted(acs.items()):
+        pnames = [a.arg for a in fn.args.args]  # type: ignore[attr-defined]
+        ev = pnames[1] if len(pnames) > 1 else "eval_ctx"
+        for c in astq.calls(fn):
+            f = astq.callee(c)
+            if not f.endswith(".as_const") and f != "as_const":
+                continue
+            n_sub += 1
+            passed = [ast.unparse(a) for a in c.args] + [ast.unparse(k.value) for k in c.keywords if k.arg in (ev, "eval_ctx")]
+            ctx.check(passed == [ev], f"{cname}:ctx:{ast.unparse(c)[:40]}", f"nodes:{cname}.as_const", f"`{ast.unparse(c)[:50]}` does not pass the eval context on",
+                      f"{cname}.as_const folds an operand with `{ast.unparse(c)}`: every nested fold must receive `{ev}`; without it the operand is evaluated under EvalContext(environment) - autoescape as the environment decides for a nameless template, volatile false - and a value folded inside `{{% autoescape true %}}` is escaped differently from the same value at run time",
+                      f"src/jinja2/nodes.py:{c.lineno}")
+    ctx.floor("nested as_const calls", n_sub, 20)
     # folding evaluates at load time what the template would evaluate at run time; for the
     # size-amplifying operators the cost is not bounded by the size of the source
     # (`9**(9**9)`, `'a' * 10**10`): the fold needs a bound on operand magnitude (as CPython's
